@@ -12,8 +12,8 @@ KF_ESCAPE = "C08:sqlalchemy/common.py:_substr_function:autoescape-clause"
 # literal assignments: (kind, value A, value B) — both valid for the kind, both distinctive enough to be searched for in SQL text
 VALUES = {
     "String": [("alpha_sentinel", "b'; DROP TABLE t; --"), ("O'B", "x\"y"), ("zzq", "qzz zzq"), ("50%-50", "50%/50"), ("a_b", "a/_b!#"), ("%", "/!#~^|%")],
-    "Integer": [("424242", "737373"), ("-424242", "5"), ("9223372036854775808", "6"), ("-9223372036854775809", "9223372036854775807"), ("99999999999999999999999", "0")],
-    "Float": [("4242.5", "7373.25"), ("1.5e10", "2E-3")],
+    "Integer": [("1", "7"), ("0", "5"), ("424242", "737373"), ("-424242", "5"), ("9223372036854775808", "6"), ("-9223372036854775809", "9223372036854775807"), ("99999999999999999999999", "0")],
+    "Float": [("1.0", "7.5"), ("0.0", "2.5"), ("4242.5", "7373.25"), ("1.5e10", "2E-3")],
     "Date": [("2020-01-01", "1999-12-31"), ("0001-01-01", "9999-12-31")],
     "DateTime": [("2020-01-01T10:00:00Z", "1999-12-31T23:59:59Z")],
     "GUID": [("01234567-89ab-cdef-0123-456789abcdef", "aaaaaaaa-bbbb-cccc-dddd-eeeeeeeeeeee")],
@@ -44,6 +44,9 @@ def templates():
         ("substring(s1, {i}) eq 'a' or substring(s1, {i}) eq 'b'", "Integer"), ("length(concat(s1, {s})) gt 1 and length(concat(s1, {s})) lt 9", "String"),
         ("i1 add {i} gt 0 and i1 add {i} lt 9", "Integer"), ("round(f1 add {f}) eq 1 or round(f1 add {f}) eq 2", "Float"),
         ("tolower(concat({s}, s1)) eq 'a' or not (tolower(concat({s}, s1)) eq 'b')", "String"), ("year(d1) eq {i} or year(d1) eq {i} add 1", "Integer"),
+        # a Boolean literal BEFORE (and after) a numeric literal in one filter: values that compare equal across kinds (true / 1 / 1.0, false / 0 / 0.0) are different literals
+        ("b1 eq true and i1 eq {i}", "Integer"), ("b1 eq false or i1 in ({i}, 5, 9)", "Integer"), ("b1 ne true and f1 lt {f}", "Float"), ("contains(s1, 'a') eq true and i1 add {i} eq 4", "Integer"),
+        ("i1 eq {i} and b1 eq true", "Integer"), ("b1 eq false and f1 eq {f} and i1 eq 0", "Float"), ("i1 eq 1 and i2 eq {i}", "Integer"), ("f1 eq 1.0 or i1 eq {i}", "Integer"),
         ("length(trim({s})) eq 5", "String"), ("concat(trim({s}), 'x') eq s1", "String"), ("tolower(trim({s})) eq s1", "String"), ("indexof(s1, toupper({s})) eq 1", "String"),
         ("contains(s1, trim({s}))", "String"), ("substring(concat({s}, s1), 1) eq s2", "String"), ("length(concat(tolower({s}), toupper({s}))) gt i1", "String"),
         ("i1 eq year({d})", "Date"), ("i1 eq month({dt}) or i1 eq hour({dt})", "DateTime"), ("f1 gt floor({i})", "Integer"), ("i1 add length({s}) gt {i}", "String"),
@@ -172,6 +175,12 @@ def run(ctx):
         for n in (3, 101, 250 if ctx.thorough else 120):
             a, b = VALUES[kind][0]
             pairs.append((kind, big_list(kind, a, n), big_list(kind, b, n), a, b))
+    # Django's own `In` lookup drops repeated elements of a list (one placeholder per DISTINCT value): two assignments under which a list has a different number of
+    # distinct elements are not "the same filter with other values" for the host ORM; such pairs are left out (the library splices nothing in either)
+    import re as _re
+    def distinct_sizes(t):
+        return [len({x.strip() for x in m.group(1).split(",")}) for m in _re.finditer(r" in \(([^()]*)\)", t)]
+    pairs = [p for p in pairs if distinct_sizes(p[1]) == distinct_sizes(p[2])]
     for name, fn in BACKENDS:
         for kind, ta, tb, a, b in pairs:
             oa, sa_, pa = fn(ta)
